@@ -9,6 +9,7 @@ package main
 import (
 	"fmt"
 	"go/types"
+	"math"
 	"strings"
 
 	"golang.org/x/tools/go/ssa"
@@ -675,6 +676,22 @@ func init() {
 		w := widthOf(t)
 		x := a[1].(*Term)
 		return ex.f.Not(ex.f.Eq(ex.f.Resize(ex.f.Resize(x, w, false), 64, false), x))
+	}
+	m["OverflowFloat"] = func(ex *Exec, pk string, _ *ssa.Function, a []Value) Value {
+		t, _, _ := ex.rvalMust(a[0], "OverflowFloat")
+		x := a[1].(FloatV)
+		if floatBits(t) == 64 {
+			return termFalse
+		}
+		if x.t == nil {
+			ax := math.Abs(x.f)
+			return Bool(ax > math.MaxFloat32 && !math.IsInf(x.f, 0))
+		}
+		f := ex.f
+		ab := f.FOp(OpFAbs, 64, x.t, nil)
+		big := f.FOp(OpFLt, 0, Const(math.Float64bits(math.MaxFloat32), 64), ab)
+		inf := f.Eq(ab, Const(math.Float64bits(math.Inf(1)), 64))
+		return f.And(big, f.Not(inf))
 	}
 	m["Len"] = func(ex *Exec, pk string, _ *ssa.Function, a []Value) Value {
 		t, loc, _ := ex.rvalMust(a[0], "Len")
